@@ -2,7 +2,7 @@
 import numpy as np
 import impl
 from gen import data, material
-from .common import tolist, history_differs, transform_primers
+from .common import tolist, history_differs, transform_primers, exceeds
 
 LEAN = "PystogVerif.Props.C01"
 LEAN_EXTRA = ["PystogVerif.Props.C01Sg"]
@@ -75,18 +75,18 @@ def evaluate(case):
         sc = max(float(np.abs(f).max()), 1e-300)
         _, G, _ = tr.F_to_G(q, f, r)
         _, f2, _ = tr.G_to_F(r, G, q)
-        if np.abs(np.asarray(f2) - f).max() > 1e-9 * sc * max(1.0, np.sqrt(N)):
+        if exceeds(np.abs(np.asarray(f2) - f).max(), 1e-9 * sc * max(1.0, np.sqrt(N))):
             fails.append(f"F->G->F on matched grids (N={N}) does not return the input: {np.abs(np.asarray(f2) - f).max():.3g}")
         _, F, _ = tr.G_to_F(r, f, q)
         _, g2, _ = tr.F_to_G(q, F, r)
-        if np.abs(np.asarray(g2) - f).max() > 1e-9 * sc * max(1.0, np.sqrt(N)):
+        if exceeds(np.abs(np.asarray(g2) - f).max(), 1e-9 * sc * max(1.0, np.sqrt(N))):
             fails.append(f"G->F->G on matched grids (N={N}) does not return the input: {np.abs(np.asarray(g2) - f).max():.3g}")
         # S <-> g (S_N = 1, S_0 arbitrary -> comes back as 1 at Q=0)
         S = 1.0 + np.where(q > 0, f / np.where(q > 0, q, 1.0), 0.0)
         _, g, _ = tr.S_to_g(q, S, r, **kw)
         _, S2, _ = tr.g_to_S(r, g, q, **kw)
         scS = max(1.0, float(np.abs(S).max()))
-        if np.abs(np.asarray(S2)[1:] - S[1:]).max() > 1e-8 * scS * N or np.asarray(S2)[0] != 1.0:
+        if exceeds(np.abs(np.asarray(S2)[1:] - S[1:]).max(), 1e-8 * scS * N) or np.asarray(S2)[0] != 1.0:
             fails.append(f"S->g->S on matched grids (N={N}) does not return the input")
         # partners do not depend on what the Transformer did before (e.g. a Lorch-damped transform between the same grids)
         if N <= 150:
@@ -104,10 +104,10 @@ def evaluate(case):
             _, Gm, _ = tr.F_to_G(q, mode, r)
             exp = np.zeros(N + 1)
             exp[m] = 1.0 / dr
-            if np.abs(np.asarray(Gm) - exp).max() > 1e-9 * max(1.0, np.sqrt(N)) / dr:
+            if exceeds(np.abs(np.asarray(Gm) - exp).max(), 1e-9 * max(1.0, np.sqrt(N)) / dr):
                 fails.append(f"F_to_G(sin(Q r_m)) is not delta_m/dr (N={N}, m={m}): {np.abs(np.asarray(Gm) - exp).max() * dr:.3g}")
             _, Fm, _ = tr.G_to_F(r, exp, q)
-            if np.abs(np.asarray(Fm) - np.sin(q * r[m])).max() > 1e-9:
+            if exceeds(np.abs(np.asarray(Fm) - np.sin(q * r[m])).max(), 1e-9):
                 fails.append(f"G_to_F(delta_m/dr) is not sin(Q r_m) (N={N}, m={m})")
         return fails
     a, A = np.asarray(case["a"]), np.asarray(case["A"])
@@ -132,7 +132,7 @@ def evaluate(case):
                 _, num, _ = tr.F_to_G(g, Ff(g), out)
                 ref = Gf(out)
             scl = max(float(np.abs(ref).max()), 1e-300)
-            if np.abs(np.asarray(num) - ref).max() > 2e-3 * scl:
+            if exceeds(np.abs(np.asarray(num) - ref).max(), 2e-3 * scl):
                 fails.append(f"{direction} transform of the smooth closed-form partner on a non-uniform (two-step) grid is off by "
                              f"{np.abs(np.asarray(num) - ref).max() / scl:.3g} of scale (discretisation accuracy is ~1e-4)")
         return fails
@@ -153,10 +153,10 @@ def evaluate(case):
     scF = max(float(np.abs(Fc(q)).max()), 1e-300)
     scG = max(float(np.abs(Gc(r)).max()), 1e-300)
     _, Fn, _ = tr.G_to_F(r, Gc(r), qs)
-    if np.abs(np.asarray(Fn) - Fc(qs)).max() > 1e-9 * scF:
+    if exceeds(np.abs(np.asarray(Fn) - Fc(qs)).max(), 1e-9 * scF):
         fails.append(f"G_to_F of sum A r exp(-a r^2) differs from the closed-form partner by {np.abs(np.asarray(Fn) - Fc(qs)).max() / scF:.3g} (relative)")
     _, Gn, _ = tr.F_to_G(q, Fc(q), rs)
-    if np.abs(np.asarray(Gn) - Gc(rs)).max() > 1e-9 * scG:
+    if exceeds(np.abs(np.asarray(Gn) - Gc(rs)).max(), 1e-9 * scG):
         fails.append(f"F_to_G of the closed-form F(Q) differs from A r exp(-a r^2) by {np.abs(np.asarray(Gn) - Gc(rs)).max() / scG:.3g} (relative)")
     # S/g pair through the same partners (S(0) is irrelevant: Q[S-1] vanishes there)
     rho = case["kw"]["rho"]
@@ -165,7 +165,7 @@ def evaluate(case):
     Sq[1:] = 1 + Fc(q[1:]) / q[1:]
     _, gn, _ = tr.S_to_g(q, Sq, rr, **case["kw"])
     gexp = 1 + Gc(rr) / (4 * np.pi * rho * rr)
-    if np.abs(np.asarray(gn) - gexp).max() > 1e-9 * max(1.0, scG / (4 * np.pi * rho * float(rr.min()))):
+    if exceeds(np.abs(np.asarray(gn) - gexp).max(), 1e-9 * max(1.0, scG / (4 * np.pi * rho * float(rr.min())))):
         fails.append("S_to_g of the closed-form S(Q) differs from the closed-form g(r)")
     return fails
 
